@@ -181,34 +181,32 @@ fn add_newlines(
     // as the total length of newline sequences we added in previous iterations.
     let mut offset = 0;
     // We will definitely have a span in the collected span since for a source code to be parsed there should be some tokens present.
-    let mut previous_unformatted_newline_span = unformatted_newline_spans
-        .first()
-        .ok_or(FormatterError::NewlineSequenceError)?;
     let mut previous_formatted_newline_span = formatted_newline_spans
         .first()
         .ok_or(FormatterError::NewlineSequenceError)?;
-    // Check if AST structure changed during formatting (e.g., braces removed from imports)
+    // Check if AST structure changed during formatting (e.g., braces removed from imports).
+    // The braces of a single-element import are leaf spans of the unformatted module, but they are
+    // not printed, so the formatted module does not have them. Drop them from the unformatted leaf
+    // spans: then both lists correspond one to one again and the newline sequences can be placed
+    // relative to the leaf spans as usual. (Mapping unformatted byte positions directly to formatted
+    // byte positions is only correct if the source is already formatted; otherwise newlines end up
+    // in the middle of tokens.)
     if !removed_spans.is_empty() {
-        // When AST structure changed, directly map newline positions from unformatted to formatted
-        newline_map.iter().try_fold(
-            0_i64,
-            |mut offset, (newline_span, newline_sequence)| -> Result<i64, FormatterError> {
-                let formatted_pos =
-                    map_unformatted_to_formatted_position(newline_span.end, removed_spans);
-
-                offset += insert_after_span(
-                    calculate_offset(formatted_pos, offset),
-                    newline_sequence.clone(),
-                    formatted_code,
-                    newline_threshold,
-                )?;
-
-                Ok(offset)
-            },
-        )?;
-
-        return Ok(());
+        let is_removed_brace = |span: &ByteSpan| {
+            // (Inside a comma separated list the leaf span also covers the following comma.)
+            matches!(
+                unformatted_code.as_bytes().get(span.start),
+                Some(b'{') | Some(b'}')
+            )
+                && removed_spans
+                    .iter()
+                    .any(|(removed_pos, removed_len)| *removed_pos == span.start && *removed_len == 1)
+        };
+        unformatted_newline_spans.retain(|span| !is_removed_brace(span));
     }
+    let mut previous_unformatted_newline_span = unformatted_newline_spans
+        .first()
+        .ok_or(FormatterError::NewlineSequenceError)?;
 
     for (unformatted_newline_span, formatted_newline_span) in unformatted_newline_spans
         .iter()
@@ -410,25 +408,6 @@ fn first_newline_sequence_in_span(
         }
     }
     None
-}
-
-/// Maps an unformatted byte position to the corresponding formatted byte position
-/// by accounting for removed spans during formatting.
-///
-/// For example, if we removed 2 bytes at position 22 (e.g., '{' and '}'),
-/// then position 40 in unformatted maps to position 38 in formatted.
-fn map_unformatted_to_formatted_position(
-    unformatted_pos: usize,
-    removed_spans: &[(usize, usize)],
-) -> usize {
-    // Sum all bytes removed before this position
-    let total_removed = removed_spans
-        .iter()
-        .filter(|(removed_pos, _)| *removed_pos < unformatted_pos)
-        .map(|(_, removed_count)| removed_count)
-        .sum::<usize>();
-
-    unformatted_pos.saturating_sub(total_removed)
 }
 
 #[cfg(test)]
